@@ -1,4 +1,4 @@
-"""X01 - behaviour OUTSIDE the property list (DESIGN.md section 7): is_aggregate votes, EmptyCriterion folds, render paths, immutable=False.
+"""X01 - behaviour OUTSIDE the property list (DESIGN.md section 7): is_aggregate votes, EmptyCriterion folds, CustomFunction arity, render paths, select-list rules, immutable=False.
 
 Not a property of properties.jsonl and not in MANIFEST.json: the specification is grown to say what the library does here, and the
 same generator / judge machinery binds it to the code.  A discrepancy means the library's behaviour moved away from what the
@@ -59,7 +59,7 @@ def run(tier: str) -> int:
     rep = core.Report("X01", tier)
     rep.evid_dir = os.path.join(core.ROOT, "evidence_extra")
     # 1. design: vote laws, soundness of the recorded behaviour, agreement with the intended reading outside the named deviations
-    r = tlc.run("MC_Meta", "INIT Init\nNEXT Next\nINVARIANT Laws\nINVARIANT Sound\nINVARIANT Identity\nINVARIANT Emit\n", workers=8, heap="4g")
+    r = tlc.run("MC_Meta", "INIT Init\nNEXT Next\nINVARIANT Laws\nINVARIANT Sound\nINVARIANT Identity\nINVARIANT Arity\nINVARIANT Emit\n", workers=8, heap="4g")
     rep.add_tlc(r)
     if r.violation or not r.ok:
         raise core.MachineryError(f"PT_Meta violates {r.violation} (spec bug)\n{r.raw_tail[-1200:]}")
@@ -92,6 +92,20 @@ def run(tier: str) -> int:
                     st, ids = "unrenderable", []
             events.append({"tid": len(events), "kind": "fold", "tree": {"k": "num", "n": "0"}, "obs": "", "parts": parts, "st": st, "ids": ids})
             meta.append(("fold-" + how, parts))
+    # 1a'. CustomFunction arity (PT_Meta!CustomCall): every declared parameter count x every number of arguments, with and without an alias
+    from pypika_tortoise.terms import CustomFunction
+    for declared in ("none", "0", "1", "2", "3"):
+        for given in ("0", "1", "2", "3", "4"):
+            for alias in (None, "ala"):
+                cf = CustomFunction("FNX", None if declared == "none" else ["p%d" % k for k in range(int(declared))])
+                try:
+                    term = cf(*[P.Field("a%d" % k) for k in range(int(given))], **({"alias": alias} if alias else {}))
+                    toks = lexer.lex(term.get_sql(ctx), "sqlite")
+                    st, ids = "ok", [str(sum(1 for tk in toks if tk["t"] == "id"))]
+                except Exception as ex:  # noqa
+                    st, ids = type(ex).__name__, []
+                events.append({"tid": len(events), "kind": "custom", "tree": {"k": "num", "n": "0"}, "obs": "", "parts": [declared, given], "st": st, "ids": ids})
+                meta.append(("custom", {"declared": declared, "given": given, "alias": alias}))
     # 1b. render paths: every catalogue statement (seed, and seed + one call) through str / repr / get_sql() / get_sql(class context)
     import hashlib
 
@@ -126,7 +140,10 @@ def run(tier: str) -> int:
         for v in res.json_tagged("V"):
             kind, what = meta[v["tid"]]
             e = events[v["tid"]]
-            if kind == "paths":
+            if kind == "custom":
+                rep.discrepancy([["custom-function", what["declared"], what["given"]]], dict(what, recorded_outcome=v["want"], observed=e["st"], arguments_rendered=e["ids"]),
+                                what="CustomFunction call differs from the recorded arity rule")
+            elif kind == "paths":
                 rep.discrepancy([["render-paths", what["family"], what["label"] or ""]], what, what="str / repr / get_sql() / get_sql(class context) give different texts")
             elif kind == "agg":
                 rep.discrepancy([["is_aggregate", what["k"], what.get("op", "") or what.get("f", ""), v["want"], e["obs"]]],
